@@ -330,7 +330,8 @@ RouteCalls(rt, cd, n) ==
     \cup { ExecuteCall("u1", << Exec(c, <<>>) >>) : c \in {A, B, E} }
     (* other origins: messages emitted by the migrate, sudo and instantiate entry points *)
     \cup { ExecuteCall("u1", << Migrate(A, 2) >>), ExecuteCall("u1", << Migrate(A, 3) >>), SudoWasm(A, "sudo"), SudoWasm(E, "wasm_sudo"),
-           ExecuteCall("u1", << Inst(1, "Lr", "", <<>>, "") >>), ExecuteCall("u1", << Inst(3, "Lr", "", <<>>, "") >>) }
+           ExecuteCall("u1", << Inst(1, "Lr", "", <<>>, "") >>), ExecuteCall("u1", << Inst(3, "Lr", "", <<>>, "") >>),
+           SudoMint("u2", Eth(1)) }                                    \* a privileged bank call (SudoMsg::Custom is not routed by the code: unimplemented!())
 (* ====================================================================== *)
 (* stake: staking and distribution messages with their real semantics, sent by users and by
    contracts (C02: rolled back with a failing sibling; C10: visible to queries; C14/C15 in
